@@ -425,7 +425,12 @@ def search(rep, tier, seed, prop, only=None, n=None, shrink_ok=True):
         with ThreadPoolExecutor(NWORKERS) as ex:
             futs = {d["name"]: ex.submit(run_domain, prop, tier, seed, d, built[d["tu"]][0], n, known, shrink_ok, base_answers) for d in group}
             for name, f in futs.items():
-                results[name] = f.result()
+                try:
+                    results[name] = f.result()
+                except Exception as e:      # e.g. the build directory was pruned by a concurrent check
+                    r = DomResult(name)
+                    r.violations.append(("search-%s-error" % name, "witness search on %s could not be run: %r" % (name, e), False))
+                    results[name] = r
     for d in good:
         r = results[d["name"]]
         rep.cov["streams"]["search-" + d["name"]] = r.st
